@@ -177,10 +177,19 @@ def rule_typestate(rep: Report, repo: Repo):
 
     # T4: every load of memo[key] is the PENDING test itself or dominated by its negative edge
     pend_tests = []
+    # local aliases of a memo element: `value = memo[key]` (single assignment); the alias is treated like the load
+    aliases = {}
+    for n in own_nodes(func):
+        if isinstance(n, ast.Assign) and len(n.targets) == 1 and isinstance(n.targets[0], ast.Name) and memo.is_memo_sub(n.value):
+            nm = n.targets[0].id
+            stores = [x for x in own_nodes(func) if isinstance(x, ast.Name) and x.id == nm and isinstance(x.ctx, ast.Store)]
+            if len(stores) == 1:
+                aliases[nm] = n
+    is_alias = lambda e: isinstance(e, ast.Name) and e.id in aliases
     for n in g.nodes:
         if n.kind == "test" and isinstance(n.ast, ast.Compare) and len(n.ast.ops) == 1:
             op, right, left = n.ast.ops[0], n.ast.comparators[0], n.ast.left
-            if isinstance(right, ast.Name) and right.id == "PENDING" and memo.is_memo_sub(left):
+            if isinstance(right, ast.Name) and right.id == "PENDING" and (memo.is_memo_sub(left) or is_alias(left)):
                 if isinstance(op, ast.Is):
                     pend_tests.append((n, "f", "t"))
                 elif isinstance(op, ast.IsNot):
@@ -201,7 +210,9 @@ def rule_typestate(rep: Report, repo: Repo):
                   "self-referential definitions surface as RuntimeError", repo.loc("series", t.ast))
     n_loads = 0
     for n in own_nodes(func):
-        if memo.is_memo_sub(n) and isinstance(n.ctx, ast.Load):
+        if (memo.is_memo_sub(n) or is_alias(n)) and isinstance(n.ctx, ast.Load):
+            if any(getattr(n, "_parent", None) is a for a in aliases.values()):
+                continue  # the aliasing assignment itself: its uses are checked through the alias name
             stmt = n
             while not isinstance(stmt, (ast.stmt,)) and not any(x.ast is stmt for x in g.nodes):
                 stmt = stmt._parent
